@@ -227,6 +227,29 @@ func toACL(rules []model.Rule) acl.Rules {
 	return out
 }
 
+// derivedPatterns builds patterns that sit right next to the run's names:
+// prefix*suffix where prefix and suffix overlap in the name (must NOT match),
+// where they tile it exactly, and near misses by one character.
+func (e *Env) derivedPatterns() []string {
+	var out []string
+	for _, nm := range e.Names {
+		r := []rune(nm) // cut at rune boundaries: patterns stay valid UTF-8
+		if len(r) == 0 || len(r) > 12 || strings.Contains(nm, "*") {
+			continue
+		}
+		i := e.T.Choice(len(r) + 1) // prefix r[:i]
+		j := e.T.Choice(len(r) + 1) // suffix r[j:]
+		pre, suf := string(r[:i]), string(r[j:])
+		out = append(out, pre+"*"+suf)
+		out = append(out, nm+"*"+nm, pre+"*"+string(r[i:]), pre+"*"+pre+"*")
+		if len(r) > 1 {
+			last := string(r[len(r)-1:])
+			out = append(out, string(r[:len(r)-1]), string(r[1:]), string(r[:len(r)-1])+"*"+last+last)
+		}
+	}
+	return out
+}
+
 var allActions = []string{"get", "info", "put", "activate", "delete"}
 
 // ---- environment ----
@@ -395,6 +418,9 @@ func (e *Env) MakeCallers(n int, patterns []string) {
 	e.Super.Super = true
 	e.Observer = db.Caller{Principal: audit.Principal{Hostname: "observer"}, Permissions: toACL(e.Super.Rules)}
 	e.Callers = []*Caller{e.Super}
+	if n > 0 {
+		patterns = append(append([]string{}, patterns...), e.derivedPatterns()...)
+	}
 	for i := 1; i <= n; i++ {
 		nr := e.T.Range(0, 3)
 		var rules []model.Rule
